@@ -80,13 +80,15 @@ def case_name(case):
                         tag += f"+att{x['ai'] // 1000000}"
                     if x['t'] == 'Fiber' and (x['ci'] != NONE or x['co'] != NONE):
                         tag += '+con' + ('I' if x['ci'] != NONE else '') + ('O' if x['co'] != NONE else '')
+                    if x.get('o'):
+                        tag += '+' + x['o']
                     if x.get('ct'):
                         tag += '+perfreq'
                 if x['t'] == 'Fused':
                     pass
                 if x['t'] == 'Edfa':
                     u = x['u'][0]
-                    tag += 'full' if u['gain'] != NONE else 'partial' if u['variety'] else 'none'
+                    tag += 'full' if u['gain'] != NONE else 'partial' if u['variety'] else 'voa' if u['voa'] != NONE else 'none'
                 parts.append(tag)
                 x = g[x['s'][0] - 1]
             chains.append(f"{e['n'][-1]}{x['n'][-1]}:" + '-'.join(parts))
